@@ -376,6 +376,12 @@ def check_shift_case(ctx, case):
     step = case['step']
     if case['z'][0][0] != 0:
         return
+    zt = [t for t, _ in case['z']]
+    if len(zt) < 2 or min(b - a for a, b in zip(zt, zt[1:])) != step:
+        # prepending samples one rainfall step apart would change what counts as a gap of
+        # this record (its smallest water-level step is not the rainfall step)
+        rec.hit('shift:record-not-sampled-on-the-rainfall-step (not transformed)')
+        return
     try:
         t0, base, findings, stats = pairing_of(case)
     except Exception:  # pylint: disable=broad-except
